@@ -45,7 +45,7 @@ func NewVerifConn(rh Handler, clientID string) *VerifConn {
 
 // Dispatch is what startReceiving does with a received message.
 func (v *VerifConn) Dispatch(msg hwebsocket.Msg) error {
-	return v.h.dispatcher.Dispatch(v.ctx, msg)
+	return v.h.dispatch(v.ctx, msg)
 }
 
 // HandleNext is one iteration of the main loop's `case msg := <-h.consumer.Messages()`.
